@@ -87,16 +87,22 @@ def run(ctx):
     nmax = 5 if qk else 7
     pats, gen_states = call_patterns(nmax)
     runs = []
-    nconf = 2 if qk else 5
+    nconf = 3 if qk else 6
     samples = []
     for ci in range(nconf):
-        n = [1, 2, 3, 1, 2][ci % 5]
+        n = [1, 2, 3, 1, 2, 1][ci % 6]
         lo, up = rand_box_solver(rng, n)
         fseed = rng.randrange(1 << 30)
         name, f = objective_zoo(_r.Random(fseed), n, lo, up)
         r_, eps, _, m = scen.rand_params(rng, n)
-        limit = [3, 6, 12, 4, 6][ci % 5]        # (3, 4: the longer patterns pass the budget before Solve is called)
-        eps = [0.02, 0.12, 0.3, 0.02, 0.12][ci % 5]        # (0.02: the budget binds, not the accuracy)
+        limit = [3, 6, 12, 4, 6, 12][ci % 6]        # (3, 4: the longer patterns pass the budget before Solve is called)
+        eps = [0.02, 0.12, 0.3, 0.02, 0.12, 0.02][ci % 6]        # (0.02: the budget binds, not the accuracy)
+        if ci == nconf - 1:
+            # a constant objective: every characteristic ties with others, so the order in which equal entries leave the queue is all
+            # that decides the sequence - it must not depend on how the iterations were batched either
+            n, limit, eps = 1, 12, 0.02
+            lo, up = rand_box_solver(rng, 1)
+            name, f = "const", (lambda y: 1.0)
         mk = lambda tag, listener="none": SolverRun(FnProblem(n, lo, up, f, name), r=r_, eps=eps, limit=limit, m=m, tag=tag,  # noqa: E731
                                                     full_snap=False, listener=listener)
         pruns = [do_pattern(mk, pat, "%s/pattern" % name) for pat in pats]
